@@ -19,7 +19,7 @@ from simkit.rng import Streams
 PROPERTY = 'C12'
 ENGINE = 'E2'
 LEVEL = 'fault_enumeration'
-RUN_TIMEOUT_S = 400.0
+RUN_TIMEOUT_S = 1200.0
 REPO = None
 
 
@@ -125,8 +125,10 @@ def validate(obs, spec, mgr_extra=None):
     try:
         return _validate(obs, spec)
     except Viol as v:
-        enc = obs['encoder'].replace(' ', '-')
-        raise Viol(f'{v.clause}[{enc}]', v.detail)
+        name = obs['encoder']
+        fam = 'pattern-encoder' if 'Pattern Encoder' in name else ('lazy-encoder' if name.startswith('Lazy') else
+                                                                   'eager-encoder')
+        raise Viol(f'{v.clause}[{fam}]', v.detail)
 
 
 def _validate(obs, spec):
@@ -527,7 +529,7 @@ def generate_enum(seed, tier='quick', index=0):
     spec = gen_settings.gen_settings_spec(rng, max_n=2 if tier == 'quick' else 3)
     return {'property': PROPERTY, 'engine': ENGINE, 'seed': seed, 'settings': [spec], 'phases': [],
             'env_seed': s.int_seed('env'), 'config': 'enum', 'enum': {'site': index % 3,
-                                                                       'stride_min_points': 60 if tier == 'quick' else 200}}
+                                                                       'stride_min_points': 24 if tier == 'quick' else 150}}
 
 
 def _execute_enum(trace):
@@ -553,7 +555,7 @@ def _execute_enum(trace):
         c = cand[len(cand) // 2]
         K = c[2]
         step = max(1, K // trace['enum']['stride_min_points'])
-        points = sorted(set(list(range(1, min(K, 20) + 1)) + list(range(1, K + 1, step)) + list(range(max(1, K - 19), K + 1))))
+        points = sorted(set(list(range(1, min(K, 8) + 1)) + list(range(1, K + 1, step)) + list(range(max(1, K - 7), K + 1))))
         for k in points:
             t = copy.deepcopy(base)
             t['phases'] = [{'ops': [['select', 0, True, {'mode': 'map', 'map': {str(c[0]): k}}, True]], 'disk_faults': []},
